@@ -255,7 +255,7 @@ func (ev *dtEval) evalBool(x ast.Expr, fr *dtFrame, env *dtEnv) (bool, error) {
 				return a != b, nil
 			}
 			// nil tests and other comparisons: boolean atom "X==Y" (normalised to ==)
-			name := ev.canon(v.X, fr) + "==" + ev.canon(v.Y, fr)
+			name := ev.atomName(ev.canon(v.X, fr)+"=="+ev.canon(v.Y, fr), v.Pos(), env == nil)
 			if (v.Op == token.EQL || v.Op == token.NEQ) && (tx != nil) {
 				if env == nil {
 					ev.boolAtoms[name] = true
